@@ -47,6 +47,108 @@
 
 __attribute__((weak)) int __lsan_do_recoverable_leak_check(void);
 
+
+/* ------------------------------------------------------------------ allocation tracing (ledger tie)
+ * The harness is linked with -Wl,--wrap=<f> for the allocation entry points of ckd_alloc.c.  While
+ * tracing is on, every allocation / release the library performs *through those entry points from another
+ * translation unit* is recorded with its call site (file:line as passed by the ckd_* macros) and the
+ * ordinal of the object:   a:<file>:<line>:<k>   f:<k>   (a multi-dimensional array is one object; a
+ * release of an object that was not allocated while tracing is f:?).  ckd_free_2d/_3d of a row table laid
+ * over a separately allocated block (ckd_alloc_2d_ptr/_3d_ptr) also releases that block: recorded first. */
+static int g_trace_on;
+static char g_trace[60000];
+static size_t g_trace_len;
+static void *g_obj[8192];
+static int g_nobj;
+
+static void tr_add(const char *fmt, ...)
+{
+    va_list ap;
+    int n;
+    if (g_trace_len > sizeof(g_trace) - 200) return;
+    va_start(ap, fmt);
+    n = vsnprintf(g_trace + g_trace_len, sizeof(g_trace) - g_trace_len, fmt, ap);
+    va_end(ap);
+    if (n > 0) g_trace_len += n;
+}
+static const char *base_name(const char *f)
+{
+    const char *b = strrchr(f, '/');
+    return b ? b + 1 : f;
+}
+static void tr_alloc(const char *file, int line, void *p)
+{
+    if (!g_trace_on || p == NULL) return;
+    if (g_nobj < 8192) g_obj[g_nobj] = p;
+    tr_add("%sa:%s:%d:%d", g_trace_len ? "," : "", base_name(file), line, g_nobj);
+    g_nobj++;
+}
+static int tr_find(void *p)
+{
+    int i;
+    for (i = (g_nobj < 8192 ? g_nobj : 8192) - 1; i >= 0; i--)
+        if (g_obj[i] == p) return i;
+    return -1;
+}
+static void tr_free(void *p, int quiet_if_unknown)
+{
+    int k;
+    if (!g_trace_on || p == NULL) return;
+    k = tr_find(p);
+    if (k < 0) { if (!quiet_if_unknown) tr_add("%sf:?", g_trace_len ? "," : ""); return; }
+    g_obj[k] = NULL;
+    tr_add("%sf:%d", g_trace_len ? "," : "", k);
+}
+static void trace_start(void) { g_trace_on = 1; g_trace_len = 0; g_nobj = 0; g_trace[0] = 0; }
+static void trace_stop(void) { g_trace_on = 0; }
+
+void *__real___ckd_calloc__(size_t, size_t, const char *, int);
+void *__real___ckd_malloc__(size_t, const char *, int);
+void *__real___ckd_realloc__(void *, size_t, const char *, int);
+char *__real___ckd_salloc__(const char *, const char *, int);
+void *__real___ckd_calloc_2d__(size_t, size_t, size_t, const char *, int);
+void *__real___ckd_calloc_3d__(size_t, size_t, size_t, size_t, const char *, int);
+void ****__real___ckd_calloc_4d__(size_t, size_t, size_t, size_t, size_t, char *, int);
+void *__real___ckd_alloc_3d_ptr(size_t, size_t, size_t, void *, size_t, char *, int);
+void *__real___ckd_alloc_2d_ptr(size_t, size_t, void *, size_t, char *, int);
+void __real_ckd_free(void *);
+void __real_ckd_free_2d(void *);
+void __real_ckd_free_3d(void *);
+void __real_ckd_free_4d(void *);
+
+void *__wrap___ckd_calloc__(size_t n, size_t sz, const char *f, int l)
+{ void *p = __real___ckd_calloc__(n, sz, f, l); tr_alloc(f, l, p); return p; }
+void *__wrap___ckd_malloc__(size_t sz, const char *f, int l)
+{ void *p = __real___ckd_malloc__(sz, f, l); tr_alloc(f, l, p); return p; }
+void *__wrap___ckd_realloc__(void *old, size_t sz, const char *f, int l)
+{ void *p; tr_free(old, 0); p = __real___ckd_realloc__(old, sz, f, l); tr_alloc(f, l, p); return p; }
+char *__wrap___ckd_salloc__(const char *o, const char *f, int l)
+{ char *p = __real___ckd_salloc__(o, f, l); tr_alloc(f, l, p); return p; }
+void *__wrap___ckd_calloc_2d__(size_t a, size_t b2, size_t sz, const char *f, int l)
+{ void *p = __real___ckd_calloc_2d__(a, b2, sz, f, l); tr_alloc(f, l, p); return p; }
+void *__wrap___ckd_calloc_3d__(size_t a, size_t b2, size_t c, size_t sz, const char *f, int l)
+{ void *p = __real___ckd_calloc_3d__(a, b2, c, sz, f, l); tr_alloc(f, l, p); return p; }
+void ****__wrap___ckd_calloc_4d__(size_t a, size_t b2, size_t c, size_t d, size_t sz, char *f, int l)
+{ void ****p = __real___ckd_calloc_4d__(a, b2, c, d, sz, f, l); tr_alloc(f, l, p); return p; }
+void *__wrap___ckd_alloc_3d_ptr(size_t a, size_t b2, size_t c, void *st, size_t sz, char *f, int l)
+{ void *p = __real___ckd_alloc_3d_ptr(a, b2, c, st, sz, f, l); tr_alloc(f, l, p); return p; }
+void *__wrap___ckd_alloc_2d_ptr(size_t a, size_t b2, void *st, size_t sz, char *f, int l)
+{ void *p = __real___ckd_alloc_2d_ptr(a, b2, st, sz, f, l); tr_alloc(f, l, p); return p; }
+void __wrap_ckd_free(void *p) { tr_free(p, 0); __real_ckd_free(p); }
+void __wrap_ckd_free_2d(void *p)
+{
+    if (g_trace_on && p) tr_free(((void **)p)[0], 1);      /* the block under a row table, when it is its own object */
+    tr_free(p, 0);
+    __real_ckd_free_2d(p);
+}
+void __wrap_ckd_free_3d(void *p)
+{
+    if (g_trace_on && p && ((void ***)p)[0]) tr_free(((void ***)p)[0][0], 1);
+    tr_free(p, 0);
+    __real_ckd_free_3d(p);
+}
+void __wrap_ckd_free_4d(void *p) { tr_free(p, 0); __real_ckd_free_4d(p); }
+
 /* ------------------------------------------------------------------ utilities */
 
 static unsigned char *read_whole(const char *path, size_t *len)
@@ -479,10 +581,14 @@ typedef struct { int n; char **w; } s3case_t;
 
 static void leak_suffix(void)
 {
+    trace_stop();
     if (__lsan_do_recoverable_leak_check)
         emit(" | leak=%d site=%s", __lsan_do_recoverable_leak_check() ? 1 : 0, first_err[0] ? first_err : "-");
     else
         emit(" | leak=na site=%s", first_err[0] ? first_err : "-");
+    if (g_trace_len) {
+        if (write(out_fd, " trace=", 7) < 0 || write(out_fd, g_trace, g_trace_len) < 0) { }
+    }
 }
 
 static void s3_child(void *arg)
@@ -532,20 +638,30 @@ static void s3_child(void *arg)
             } else if (op[1] == 'd' && op[0] == '1') {
                 void *buf = NULL;
                 uint32 cnt = 0;
-                if (s3file_get_1d(&buf, atoi(op + 2), &cnt, s) < 0) { emit(" rej"); break; }
+                int rv1;
+                trace_start();
+                rv1 = s3file_get_1d(&buf, atoi(op + 2), &cnt, s) < 0;
+                trace_stop();
+                if (rv1) { emit(" rej"); break; }
                 ckd_free(buf);
                 emit(" 1:%u:%ld:%u", cnt, (long)(s->ptr - (const char *)s->buf), (unsigned)s->chksum);
             } else if (op[1] == 'd' && op[0] == '2') {
                 void **arr = NULL;
                 uint32 d1 = 0, d2 = 0;
-                long r = s3file_get_2d(&arr, atoi(op + 2), &d1, &d2, s);
+                long r;
+                trace_start();
+                r = s3file_get_2d(&arr, atoi(op + 2), &d1, &d2, s);
+                trace_stop();
                 if (r < 0) { emit(" rej"); break; }
                 ckd_free_2d(arr);
                 emit(" 2:%u:%u:%ld:%ld:%u", d1, d2, r, (long)(s->ptr - (const char *)s->buf), (unsigned)s->chksum);
             } else if (op[1] == 'd' && op[0] == '3') {
                 void ***arr = NULL;
                 uint32 d1 = 0, d2 = 0, d3 = 0;
-                long r = s3file_get_3d(&arr, atoi(op + 2), &d1, &d2, &d3, s);
+                long r;
+                trace_start();
+                r = s3file_get_3d(&arr, atoi(op + 2), &d1, &d2, &d3, s);
+                trace_stop();
                 if (r < 0) { emit(" rej"); break; }
                 ckd_free_3d(arr);
                 emit(" 3:%u:%u:%u:%ld:%ld:%u", d1, d2, d3, r, (long)(s->ptr - (const char *)s->buf), (unsigned)s->chksum);
@@ -558,7 +674,9 @@ static void s3_child(void *arg)
         tmat_t *t;
         if ((b = load_src(w[2], w[3], &len)) == NULL) { emit(" bad-src"); return; }
         s = s3file_init(b, len);
+        trace_start();
         t = tmat_init_s3file(s, lm, 0.0001);
+        trace_stop();
         if (t) emit(" ok %d %d", t->n_tmat, t->n_state); else emit(" rej");
         tmat_free(t);
         s3file_free(s);
@@ -570,7 +688,9 @@ static void s3_child(void *arg)
         if ((b = load_src(w[2], w[3], &len)) == NULL || (b2 = load_src(w[4], w[5], &len2)) == NULL) { emit(" bad-src"); return; }
         m = s3file_init(b, len);
         v = s3file_init(b2, len2);
+        trace_start();
         g = gauden_init_s3file(m, v, 0.0001, lm);
+        trace_stop();
         if (g) {
             int i;
             emit(" ok %d %d %d ", g->n_mgau, g->n_feat, g->n_density);
@@ -592,8 +712,14 @@ static void s3_child(void *arg)
         fcb = feat_init_s3file(cfg, NULL);
         if (fcb == NULL || (int)feat_stream_len(fcb, 0) != sl) { emit(" harness-error feat"); return; }
         s = s3file_init(b, len);
-        if (feat_read_lda_s3file(fcb, s, 0) < 0) emit(" rej");
-        else emit(" ok %u %u %u", fcb->n_lda, fcb->out_dim, feat_stream_len(fcb, 0));
+        {
+            int rvl;
+            trace_start();
+            rvl = feat_read_lda_s3file(fcb, s, 0);
+            trace_stop();
+            if (rvl < 0) emit(" rej");
+            else emit(" ok %u %u %u", fcb->n_lda, fcb->out_dim, feat_stream_len(fcb, 0));
+        }
         s3file_free(s);
         feat_free(fcb);
         config_free(cfg);
@@ -617,7 +743,9 @@ static void s3_child(void *arg)
         bin_mdef_t *m;
         if ((b = load_src(w[2], w[3], &len)) == NULL) { emit(" bad-src"); return; }
         s = s3file_init(b, len);
+        trace_start();
         m = bin_mdef_read_s3file(s, 0);
+        trace_stop();
         if (m == NULL)
             emit(" rej");
         else {
@@ -668,7 +796,7 @@ static void s3_child(void *arg)
         if (d == NULL || decoder_init_fe(d) == NULL || decoder_init_feat_s3file(d, NULL) == NULL
             || decoder_init_acmod_pre(d) == NULL) { emit(" harness-error acmod"); return; }
         snprintf(dir, sizeof(dir), "%s/am-%d", getenv("VERIF_C17_TMP") ? getenv("VERIF_C17_TMP") : ".", (int)getpid());
-        if (ct) {
+        if (ct == 1) {
             static const char *keys[5] = { "mdef", "tmat", "mean", "var", NULL };
             keys[4] = sd ? "sendump" : "mixw";
             mkdir(dir, 0755);
@@ -693,7 +821,13 @@ static void s3_child(void *arg)
                     mn = s3file_init(fb[2], fl[2]);
                     vr = s3file_init(fb[3], fl[3]);
                     mx = s3file_init(fb[4], fl[4]);
-                    rv = js_load_gmm(d, mn, vr, sd ? NULL : mx, sd ? mx : NULL);
+                    if (ct == 2) {      /* the PTM loader alone, traced */
+                        trace_start();
+                        d->acmod->mgau = ptm_mgau_init_s3file(d->acmod, mn, vr, sd ? NULL : mx, sd ? mx : NULL);
+                        trace_stop();
+                        rv = d->acmod->mgau ? 0 : -1;
+                    } else
+                        rv = js_load_gmm(d, mn, vr, sd ? NULL : mx, sd ? mx : NULL);
                     s3file_free(mn);
                     s3file_free(vr);
                     s3file_free(mx);
@@ -702,7 +836,7 @@ static void s3_child(void *arg)
         }
         if (rv < 0) emit(" rej"); else emit(" ok %s", d->acmod->mgau->vt->name);
         decoder_free(d);
-        if (ct) {
+        if (ct == 1) {
             for (k = 0; k < 5; k++) { snprintf(path, sizeof(path), "%s/%s", dir, names[k]); unlink(path); }
             rmdir(dir);
         }
